@@ -1,3 +1,52 @@
+import PicoProofs.EndToEnd
 import PicoProofs.Tie
-import PicoModel.WellTyped
-/- C03: theorems are added as the proof modules land -/
+/-
+C03 — Unmarshal(Marshal(m)) reproduces m for every message.
+
+Machine level: `Gen2.marshal` / `Gen2.unmarshal` are the models of the generated Encode / Decode
+(and of message.go) over the regenerated Go expressions and tables. For EVERY supported schema
+and EVERY strictly well-typed value — all scalar bit patterns (NaN payloads, -0 included), every
+presence pattern, any nesting depth, maps in ANY entry order (a map value is an association list
+in iteration order; the decoded list is compared entry for entry, see `mapInsert`), picoconv
+times and durations — decoding the encoding into a fresh message gives back exactly that value
+with a nil error. `wtMsg … true` excludes only what the property itself sets aside (nil ≡ empty;
+values that are by design encoded as absent).
+-/
+namespace Pico.Props
+open Pico Pico.Gen2
+
+theorem C03_roundtrip (S : Schema) (hS : S.ok) (id : Nat) (v : Val)
+    (hwt : wtMsg S true id v = true) (hsz : (Spec.specEnc S id v).length < 2 ^ 64) :
+    ∃ d, unmarshal S id (marshal S id v) (zeroMsg S id) = .ok (d, v) ∧ d.err = none :=
+  unmarshal_marshal S hS id v hwt hsz
+
+/-- the per-kind kernel of the proof: decode ∘ encode is the identity on every bit pattern -/
+theorem C03_scalar_bits (rep : Bool) (var : Variant) (k : Scalar) (n : Nat) (h : n < 2 ^ k.width) :
+    decBits rep k (encBits var k n) = n := (roundtrip_bits rep var k n h).2
+
+/-- "default omitted ⇒ the decoder's zero-initialised target is right": the plain writer omits a
+numeric field exactly when its bit pattern is zero -/
+theorem C03_default_is_zero (k : Scalar) (hk : k.isBytes = false) (n : Nat) (h : n < 2 ^ k.width) :
+    isDefaultBits k n = true ↔ n = 0 := default_iff_zero k hk n h
+
+/-- picoconv: round trip of every Duration and of every instant -/
+theorem C03_duration (n : Int) (h : Time.I64 n) : Time.durDecode (Time.durSplit n).1 (Time.durSplit n).2 = n :=
+  Time.dur_roundtrip n h
+
+/-- non-vacuity: the side conditions hold for a concrete schema with a oneof, a map, a nested and a
+recursive message, and a value exercising them (evaluated by the kernel) -/
+def S1 : Schema := [
+  ⟨[⟨1, .scalar .sint32, 0, 0, false, 0⟩, ⟨2, .scalar .string, 1, 0, false, 0⟩, ⟨3, .scalar .float, 2, 0, false, 0⟩,
+    ⟨4, .scalar .bool, 0, 1, false, 0⟩, ⟨5, .message 1, 0, 1, false, 0⟩, ⟨6, .map .int32 .bytes, 0, 0, false, 0⟩,
+    ⟨7, .message 0, 0, 0, false, 0⟩], false, false⟩,
+  ⟨[⟨1, .scalar .int64, 0, 0, false, 0⟩], true, false⟩ ]
+
+def v1 : Val := .msg [.num 0xFFFFFFFF, .some (.bytes []), .list [.num 0x80000000, .num 0x7FC00001],
+  .none, .some (.some (.msg [.num 0] [])), .map [(.num 0, .bytes [1]), (.num 7, .bytes [])],
+  .some (.msg [.num 0, .none, .list [], .some (.num 0), .none, .none, .none] [])] []
+
+example : S1.supported = true := by decide
+example : SpecRt.zeroMsgOkB S1 = true := by decide
+example : wtMsg S1 true 0 v1 = true := by decide
+
+end Pico.Props
